@@ -1,4 +1,6 @@
 ---------------------------- MODULE MC_VT ----------------------------
+(* C07 on every strand up to MaxLen x every check length up to MaxN: shape, agreement of the documented function with the      *)
+(* formula the code evaluates, definedness on the empty strand, and every single substitution / C,G,T indel changes the check.  *)
 EXTENDS VT, TLC, Json
 CONSTANTS MaxLen, MaxN, NbLen, EmitOn
 Strs == UNION {[1..m -> 0..3] : m \in 0..MaxLen}
